@@ -110,6 +110,23 @@ def _param_leaves(t: Term, fi: FuncInfo) -> set[str]:
     return {x[1] for x in leaves(t, ("param",)) if x[1] in fi.param_names}
 
 
+def _plain_value(t: Term) -> bool:
+    """A value written with parameters, constants, `not` / `and` / `or` / comparisons / bool() only."""
+    if t[0] in ("param", "const"):
+        return True
+    if t[0] == "unop":
+        return _plain_value(t[2])
+    if t[0] == "boolop":
+        return all(_plain_value(x) for x in t[2])
+    if t[0] == "cmp":
+        return _plain_value(t[2]) and _plain_value(t[3])
+    if t[0] == "call" and t[1] == ("builtin", "bool") and len(t[2]) == 1:
+        return _plain_value(t[2][0])
+    if t[0] == "phi":
+        return all(_plain_value(v) for _g, v in t[1])
+    return False
+
+
 def _plain_loc(l: Term) -> bool:
     """A location written with parameters, attributes and parent / relative steps only (comparable with an expected one)."""
     if l[0] in ("PARENT", "ABS", "NOSUF"):
@@ -235,7 +252,7 @@ def rule_r1(repo: Repo, res: Result) -> None:
         root_arg = b.get(names[1]) if len(names) > 1 else None
         got = loc(root_arg) if root_arg is not None else None
         ok = got == ("param", "root_path")
-        if not ok and _has_lost_parts(root_arg):
+        if not ok and (_has_lost_parts(root_arg) or got is None or not _plain_loc(got)):
             res.undecide("C04.R1", f"{tag}::source root of the scan <- root_path", f"cannot follow how the scanner's source root `{show(root_arg, 100)}` is computed", where(ctor.fi, ctor.node))
         else:
             res.add("C04.R1", f"{tag}::source root of the scan <- root_path", ok, "module names are computed relative to root_path" if ok else f"the scanner's source root is `{show_loc(got) if got is not None else '?'}`, not root_path: module names no longer start at the root directory", where(ctor.fi, ctor.node), kind="flow")
@@ -246,7 +263,7 @@ def rule_r1(repo: Repo, res: Result) -> None:
         if len(start) == 1:
             got = loc(start[0].arg(0)) if start[0].arg(0) is not None else None
             ok = got == ("param", "module_path")
-            if not ok and _has_lost_parts(start[0].arg(0)):
+            if not ok and (_has_lost_parts(start[0].arg(0)) or got is None or not _plain_loc(got)):
                 res.undecide("C04.R1", f"{tag}::scan start <- module_path", f"cannot follow how the start of the scan `{show(start[0].arg(0), 100)}` is computed", where(start[0].fi, start[0].node))
             else:
                 res.add("C04.R1", f"{tag}::scan start <- module_path", ok, "the scan starts at module_path" if ok else f"the scan starts at `{show_loc(got) if got is not None else '?'}`, not at module_path", where(start[0].fi, start[0].node), kind="flow")
@@ -256,7 +273,10 @@ def rule_r1(repo: Repo, res: Result) -> None:
     if ext is not None:
         a0 = ext.arg(0, "exclude_external_libraries")
         ok = a0 == ("param", "exclude_external_libraries")
-        res.add("C04.R1", f"{tag}::external filter flag <- exclude_external_libraries", ok, "the flag is forwarded" if ok else f"the external-import filter receives `{show(a0, 60) if a0 is not None else '?'}` as its flag", where(ext.fi, ext.node), kind="flow")
+        if not ok and (a0 is None or _has_lost_parts(a0) or not _plain_value(a0)):
+            res.undecide("C04.R1", f"{tag}::external filter flag <- exclude_external_libraries", f"cannot follow how the flag `{show(a0, 80) if a0 is not None else '?'}` of the external-import filter is computed", where(ext.fi, ext.node))
+        else:
+            res.add("C04.R1", f"{tag}::external filter flag <- exclude_external_libraries", ok, "the flag is forwarded" if ok else f"the external-import filter receives `{show(a0, 60) if a0 is not None else '?'}` as its flag", where(ext.fi, ext.node), kind="flow")
         a2 = ext.arg(2, "external_exclusions")
         pl = _param_leaves(a2, ge) if a2 is not None else set()
         _options_obligation(res, f"{tag}::external filter patterns <- external_exclusions / regex_external_exclusions", pl, {"external_exclusions", "regex_external_exclusions"}, "the patterns of the external-import filter", ext, a2)
@@ -287,6 +307,10 @@ def _has_lost_parts(t: Term | None) -> bool:
             return True
         if x[0] == "attr" and x[1][0] in ("new", "call", "mcall", "elem") and x[2].startswith("_"):
             return True  # a private field of an object built elsewhere
+        if x[0] == "attr" and x[1][0] == "mcall" and (x[1][1][0] == "new" or x[1][2].startswith("_")):
+            return True  # a field of what a method of a helper object returned (`ctx._replace(...).root_path`)
+        if x[0] == "attr" and x[1][0] == "new" and x[2] not in ("name", "parent", "parts", "stem", "suffix"):
+            return True  # a field of a helper object that the executor could not read
         if x[0] in ("call", "mcall") and (x[1][0] == "fn" if x[0] == "call" else False):
             return True  # a repository function that was not entered
     return False
